@@ -185,7 +185,14 @@ fn run_suite<C: Suite>(ctx: &mut Ctx) {
                         let mut re = ct.clone();
                         re.scheme = lscheme(s2);
                         let valid = bool::from(re.is_valid());
-                        let dec = ct_some(re.decrypt(&sk));
+                        let mut dec = ct_some(re.decrypt(&sk));
+                        // every decrypt path: with the hidden-key decryption key as well
+                        if dec.is_none() {
+                            dec = ct_some(sk.sign_decryption_key::<&[u8]>(&re).decrypt(&re));
+                        }
+                        if dec.is_none() {
+                            dec = ct_some(SignCryptDecryptionKey::<C>(re.u * sk.0).decrypt(&re));
+                        }
                         ctx.expect(!valid && dec.is_none(), &format!("C05/cross-scheme-accepted/signcrypt/{n}/{}->{}", s1.name(), s2.name()), || {
                             let mut x = d("relabelled signcryption ciphertext is valid or decrypts", s2);
                             x["is_valid"] = json!(valid);
